@@ -1451,8 +1451,16 @@ hdf_read_attrs(XDR *xdrs, NC *handle, int32 vg)
                     HGOTO_FAIL(NULL);
 
                 if (type == NC_CHAR) {
-                    if ((attr_size = VFfieldorder(vs, 0)) == FAIL)
+                    int32 order;
+
+                    if ((order = VFfieldorder(vs, 0)) == FAIL)
                         HGOTO_FAIL(NULL);
+
+                    /* DFNT_CHAR attributes are stored as one record of 'order' characters,
+                       DFNT_UCHAR ones as 'attr_size' records of one character (see
+                       hdf_write_attr) */
+                    if (order > 1 || attr_size == 1)
+                        attr_size = order;
 
                     ((char *)values)[attr_size] = '\0';
                 }
